@@ -449,9 +449,23 @@ pub enum RaftIndexResponse {
 }
 
 impl Handler<RaftIndexRequest> for RaftIndexManager {
-    type Result = anyhow::Result<RaftIndexResponse>;
+    type Result = ResponseActFuture<Self, anyhow::Result<RaftIndexResponse>>;
 
     fn handle(&mut self, msg: RaftIndexRequest, ctx: &mut Self::Context) -> Self::Result {
+        let result = self.handle_request(msg, ctx);
+        // A save only registers its file write with `ctx.wait()`. The answer is handed over as a
+        // spawned future, which the context polls once no wait future is left, so the caller is
+        // acknowledged after the record is in the file and not before the write has started.
+        Box::pin(actix::fut::ready(result))
+    }
+}
+
+impl RaftIndexManager {
+    fn handle_request(
+        &mut self,
+        msg: RaftIndexRequest,
+        ctx: &mut Context<Self>,
+    ) -> anyhow::Result<RaftIndexResponse> {
         //log::info!("RaftIndexRequest:{:?}",&msg);
         match msg {
             RaftIndexRequest::LoadIndexInfo => self.load_index_info(),
